@@ -1067,6 +1067,17 @@ func runE3Drivers(p *Program, sp *Spec, c *Collector, a *stateAn, pi *passInfo) 
 					c.Ob(ps.Props, "E3.injected-setter", key+" setter:"+setter.Name(), Violated, "driver builds the listener without calling "+setter.Name()+" before the walk on every path: the value injected for the previous unit is used", p.InstrPos(site), false)
 				}
 			}
+			// (a') the unit entry must run once per unit: if the walk sits in a loop, the constructor call must sit in
+			// the same loop (a listener or model built once before the loop is shared by all units)
+			if w := findWalk(p, d, ps.Walk); w != nil {
+				wr := loopRegion(d, w.Block())
+				if wr != nil && !wr[site.Block()] {
+					c.Ob(ps.Props, "E3.entry-per-unit", key+" entry:"+ctor.Name(), Violated,
+						ctor.Name()+" is called outside the loop that walks the units: the per-unit state is initialised once and then shared by all files", p.InstrPos(site), false)
+				} else {
+					c.Ob(ps.Props, "E3.entry-per-unit", key+" entry:"+ctor.Name(), Discharged, "the unit entry is called in the same iteration as the walk (or the driver handles a single unit)", p.InstrPos(site), true)
+				}
+			}
 			// per-unit region of the driver: blocks of the innermost loop containing the constructor call,
 			// or (no loop) blocks dominated by the constructor call.
 			region := loopRegion(d, site.Block())
